@@ -15,7 +15,7 @@ Inductive input :=
 | IPkce (r : router) (c : config) (k : client_kind) (ch : option string) (v : vrel)
     (* code flow of a client of kind k (correct credentials); ch = code_challenge_method sent with a
        challenge (None: no challenge); v = how the token request's verifier relates to it / absent *)
-| IReqObj (r : router) (c : config) (k : client_kind) (q : request)
+| IReqObj (r : router) (c : config) (k : client_kind) (p : ro_placement) (q : request)
     (* authorization request of a client of kind k carrying a request object signed with its registered key *)
 | IIssuer (api : iss_api) (raw : string) (hostless : bool) (o : url_oracle) (insecure : bool)
     (* issuer string (or path for the dynamic strategies) given to the constructor;
@@ -24,7 +24,10 @@ Inductive input :=
     (* client.Discover(asked) against a server whose document says doc_iss *)
 
 Inductive observed :=
-| ODoc (ok : bool) (iss : string) (adv : list (option string)) (routed : list bool) (tok_iss : option string)
+| ODoc (ok : bool) (iss : string) (adv : list (option string)) (routed : list bool)
+       (fetched : list (option string * bool)) (tok_iss : option string)
+    (* fetched: per endpoint, the path left of the advertised URL after removing the document's issuer
+       (None: not advertised or not under the issuer) and whether the handler routes exactly that path *)
 | OGrants (advertised : list string) (answers : list answer)
 | OPkce (advertised : list string) (issued : bool)
 | OReqObj (advertised : bool) (res : ro_result)
@@ -40,14 +43,23 @@ Definition has_auth_and_token (c : config) : bool :=
   | _, _ => true
   end.
 
+(* fetching the advertised URL of a path endpoint = asking for its route; absolute-URL endpoints
+   point elsewhere (not under the issuer) and are not fetched *)
+Definition fetched_model (r : router) (c : config) (e : ep) : option string * bool :=
+  match e with
+  | EpPath p => (Some (relative p), served r c (relative p))
+  | _ => (None, false)
+  end.
+
 Definition model (i : input) : observed :=
   match i with
   | IDoc r c q probes =>
       ODoc true (doc_issuer r c q) (map (doc_endpoint r c q) all_epnames) (map (served r c) probes)
+           (map (fun n => fetched_model r c (ep_of (c_eps c) n)) all_epnames)
            (if has_auth_and_token c then Some (token_issuer r c q) else None)
   | IGrants r c gs => OGrants (doc_grants c) (map (fun s => dispatch r c (classify s)) gs)
   | IPkce r c k ch v => OPkce (doc_pkce c) (pkce_issued r c k ch v)
-  | IReqObj r c k q => OReqObj (doc_reqparam c) (reqobj_outcome r c k)
+  | IReqObj r c k p q => OReqObj (doc_reqparam c) (reqobj_outcome r c k p)
   | IIssuer api raw _ o insecure =>
       OIssuer (match api with
                | ApiValidate | ApiNewProvider => validate_issuer raw o insecure
@@ -79,6 +91,20 @@ Fixpoint spec_eps (iss : string) (es : list ep) (adv : list (option string)) (ro
   | e :: es', a :: adv', b :: routed', p :: probes' =>
       spec_ep iss e a b p && spec_eps iss es' adv' routed' probes'
   | _, _, _, _ => false
+  end.
+
+(* fetching exactly the advertised URL of a path endpoint reaches a route of the handler *)
+Definition spec_fetch (e : ep) (adv : option string) (f : option string * bool) : bool :=
+  match adv, e with
+  | Some _, EpPath _ => match f with (Some _, true) => true | _ => false end
+  | _, _ => true
+  end.
+
+Fixpoint spec_fetched (es : list ep) (adv : list (option string)) (fs : list (option string * bool)) : bool :=
+  match es, adv, fs with
+  | [], [], [] => true
+  | e :: es', a :: adv', f :: fs' => spec_fetch e a f && spec_fetched es' adv' fs'
+  | _, _, _ => false
   end.
 
 (* advertised token-endpoint grant types are exactly those not answered with unsupported_grant_type;
@@ -114,10 +140,11 @@ Definition bad_issuer (api : iss_api) (raw : string) (hostless insecure : bool) 
 
 Definition spec (i : input) (o : observed) : bool :=
   match i, o with
-  | IDoc r c q probes, ODoc ok iss adv routed tok =>
+  | IDoc r c q probes, ODoc ok iss adv routed fetched tok =>
       ok
       && String.eqb iss (issuer_of c q)       (* the issuer the strategy derives from THIS request *)
       && spec_eps iss (map (ep_of (c_eps c)) all_epnames) adv routed probes
+      && spec_fetched (map (ep_of (c_eps c)) all_epnames) adv fetched
       && match tok with Some t => String.eqb t iss | None => true end
   | IGrants r c gs, OGrants advertised answers => spec_grants advertised gs answers
   | IPkce r c k ch v, OPkce advertised issued =>
@@ -127,11 +154,12 @@ Definition spec (i : input) (o : observed) : bool :=
       | Some m => if string_in m advertised then Bool.eqb issued (rel_matches m v && client_ok c k) else true
       | None => true
       end
-  | IReqObj r c k q, OReqObj advertised res =>
+  | IReqObj r c k p q, OReqObj advertised res =>
+      (* advertised support: an object whose parameters are placed as OIDC Core 6.1 allows is honoured *)
       match res with
       | RoPanic => false
       | RoHonoured => true
-      | _ => negb advertised
+      | _ => negb (advertised && ro_legal p)
       end
   | IIssuer api raw hostless _ insecure, OIssuer res _ =>
       if bad_issuer api raw hostless insecure then negb (iss_eqb res IssOk) else true
@@ -148,9 +176,11 @@ Definition split_eqb (a b : url_split) : bool :=
 
 Definition obs_eqb (a b : observed) : bool :=
   match a, b with
-  | ODoc k1 i1 a1 r1 t1, ODoc k2 i2 a2 r2 t2 =>
+  | ODoc k1 i1 a1 r1 f1 t1, ODoc k2 i2 a2 r2 f2 t2 =>
       Bool.eqb k1 k2 && String.eqb i1 i2 && list_eqb (option_eqb String.eqb) a1 a2
-      && list_eqb Bool.eqb r1 r2 && option_eqb String.eqb t1 t2
+      && list_eqb Bool.eqb r1 r2
+      && list_eqb (fun x y => option_eqb String.eqb (fst x) (fst y) && Bool.eqb (snd x) (snd y)) f1 f2
+      && option_eqb String.eqb t1 t2
   | OGrants a1 r1, OGrants a2 r2 => list_eqb String.eqb a1 a2 && list_eqb answer_eqb r1 r2
   | OPkce a1 i1, OPkce a2 i2 => list_eqb String.eqb a1 a2 && Bool.eqb i1 i2
   | OReqObj a1 r1, OReqObj a2 r2 => Bool.eqb a1 a2 && ro_eqb r1 r2
@@ -169,7 +199,7 @@ Definition count_handled (l : list answer) : nat :=
 (* decision-path class of the model run; 0 = the first-guard reject *)
 Definition path (i : input) (o : observed) : nat :=
   match i, o with
-  | IDoc r c q _, ODoc _ _ adv _ tok =>
+  | IDoc r c q _, ODoc _ _ adv _ _ tok =>
       10 + strategy_class c + 3 * (if forallb (fun a => match a with Some _ => true | None => false end) adv then 0 else 1)
       + 6 * (match tok with Some _ => 0 | None => 1 end)
   | IGrants r c gs, OGrants _ answers => 30 + count_handled answers
@@ -177,7 +207,9 @@ Definition path (i : input) (o : observed) : nat :=
       40 + (if issued then 1 else 0)
       + 2 * (match ch with Some m => match method_of m with MS256 => 1 | MOther => 2 end | None => 0 end)
       + 6 * (match v with VAbsent => 1 | _ => 0 end)
-  | IReqObj r c k q, OReqObj _ res => 50 + (match res with RoHonoured => 0 | RoNotSupported => 1 | _ => 2 end)
+  | IReqObj r c k p q, OReqObj _ res =>
+      50 + (match res with RoHonoured => 0 | RoNotSupported => 1 | _ => 2 end)
+      + 3 * (match p with PBoth => 0 | PRedirectInner => 1 | PStateInner => 2 | PScopeInner => 3 | PResponseTypeInner => 4 end)
   | IIssuer api _ _ _ _, OIssuer res _ =>
       match res with
       | IssNoIssuer => 0
